@@ -60,6 +60,16 @@ def handle(job):
     p = rs.standard_normal(shape).astype(np.float32)
     pdt = jnp.dtype(job.get("pdtype", "float32"))       # parameter (and gradient) dtype
     params = {"w": jnp.asarray(p).astype(pdt)}
+    # a companion tensor in the same tree (its gradients live on another, changing scale): everything the
+    # property says is per tensor - normalisation included - so "w" must behave as if it were alone
+    comp = bool(job.get("companion"))
+    if comp:
+      params["z"] = jnp.asarray(rs.standard_normal((3, 2)).astype(np.float32)).astype(pdt)
+    def tree(gw, t):
+      if not comp:
+        return {"w": gw}
+      gz = (np.random.RandomState(job["seed"] + 31 * t).standard_normal((3, 2)) * 10.0 ** ((t % 5) - 2)).astype(np.float32)
+      return {"w": gw, "z": jnp.asarray(gz).astype(pdt)}
     state = opt.init(params)
     # eager jobs call the transformation op by op and throw one result away first (a dry run / look-ahead
     # from the same state object): update must not write into the state it is given
@@ -74,8 +84,8 @@ def handle(job):
       gj = jnp.asarray(g).astype(pdt)
       g = np.asarray(gj.astype(jnp.float32))            # what the optimizer was given, exactly
       if eager:
-        upd({"w": gj}, state, params)
-      u, state = upd({"w": gj}, state, params)
+        upd(tree(gj, t), state, params)
+      u, state = upd(tree(gj, t), state, params)
       ca = int(np.asarray(state.count))
       accs = [np.asarray(a, np.float64) for a in state.stats["w"].diagonal_statistics]
       if grid:
